@@ -13,6 +13,7 @@ type IndividualNode struct {
 	families                      FamilyNodes
 	spouses                       []*IndividualNode
 	cachedUniqueIDs               *StringSet
+	cacheGeneration               uint64
 }
 
 // SpouseChildren connects a single spouse to a set of children. The children
@@ -28,7 +29,16 @@ type SpouseChildren map[*IndividualNode]ChildNodes
 func newIndividualNode(document *Document, pointer string, children ...Node) *IndividualNode {
 	return &IndividualNode{
 		newSimpleDocumentNode(document, TagIndividual, "", pointer, children...),
-		false, false, nil, nil, nil,
+		false, false, nil, nil, nil, 0,
+	}
+}
+
+// validateCache discards the cached families, spouses and unique identifiers
+// if any node has changed since they were calculated.
+func (node *IndividualNode) validateCache() {
+	if generation := currentEditGeneration(); node.cacheGeneration != generation {
+		node.resetCache()
+		node.cacheGeneration = generation
 	}
 }
 
@@ -82,6 +92,8 @@ func (node *IndividualNode) Spouses() (spouses IndividualNodes) {
 		return nil
 	}
 
+	node.validateCache()
+
 	if node.cachedSpouses {
 		return node.spouses
 	}
@@ -122,6 +134,8 @@ func (node *IndividualNode) Families() (families FamilyNodes) {
 	if node == nil {
 		return nil
 	}
+
+	node.validateCache()
 
 	if node.cachedFamilies {
 		return node.families
@@ -854,6 +868,8 @@ func (node *IndividualNode) UniqueIDs() (nodes []*UniqueIDNode) {
 // commonly unique identifiers such as the FamilySearch ID or UUID generated by
 // some applications.
 func (node *IndividualNode) UniqueIdentifiers() *StringSet {
+	node.validateCache()
+
 	if node.cachedUniqueIDs == nil {
 		node.cachedUniqueIDs = NewStringSet()
 
